@@ -177,6 +177,9 @@ def check_copy_family(rep, scr, tier, seed):
         oi, om = run_cases(rep, scr, impls[v], md, consts[v], cases, v)
         judge(rep, cases, oi, om, consts[v], v, oracle_for(pid, consts[v]), projection_for(pid, consts[v]), None)
     if pid == 'C02': c02_query_extents(rep, scr, impls['O1'], md, consts['O1'], tier, seed)
+    if pid in ('C01', 'C03', 'C04', 'C05', 'C06'):
+        for v in variants: getenv_batch(rep, scr, impls[v], md, consts[v], pid, v, tier, seed)
+    if pid == 'C05': printf_report_batch(rep, scr, impls['O1'], consts['O1'], tier, seed)
     report_proofs(rep, pr, pid)
     report_mismatches(rep, 'T1')
     rep.trusted = TRUSTED_COMMON
@@ -185,6 +188,107 @@ def check_copy_family(rep, scr, tier, seed):
     return rep.finish('size lattice x contents x placements x object-size classes x build variants (see input_distribution); '
                       'non-trivial = distinct (function, case class, return value, handler list, build variant)',
                       'make -C /verif/coq Properties_%s.vo (coqc, full .vo) + harness/check.py %s' % (pid, pid))
+
+def printf_report_batch(rep, scr, impl, consts, tier, seed):
+    """C05 for the printf family: a failing call reports exactly once, with the code it returns; a succeeding call never reports"""
+    import random
+    rng = random.Random(seed + 5); cs = []; ml = []; k = [0]
+    slack = bool(consts['null_slack']); rmax = consts['rmax_str']
+    fmts = []
+    for conv in 'dxus':
+        for flags in ('', '-', '0', '-+'):
+            for width in (None, 6, 12, 20):
+                for prec in (None, 3):
+                    if conv == 's' and ('0' in flags or '+' in flags): continue
+                    d = Dir(flags, width, prec, '', conv, [rng.choice([5, -7, 123456]) if conv != 's' else rng.choice([b'ab', b'hello world'])], ['i' if conv != 's' else 's'])
+                    fmts.append(([d], d.text().encode(), d.args))
+    fmts += [([], b'plain text that is long', []), ([], b'ab%d' , [77]), ([], b'%s', [None]), ([], b'%q', [1]), ([], b'x%n', [0])]
+    for ds, fmt, args in fmts:
+        for dmax in (1, 2, 5, 8, 11, 13, 40):
+            for func in ('x:snprintf_s', 'x:sprintf_s', 'x:vsprintf_s', 'x:vsnprintf_s'):
+                k[0] += 1; c = c11_case(0, func, fmt, args, dmax, rng); c.id = 'p%d' % k[0]
+                c.meta = dict(cls='printf-report', func=func[2:], fmt=fmt.decode('latin1'), dmax=dmax, ds=ds, kind='buffer', text=None)
+                cs.append(c); ml.append(c11_model_line(c.id, 'vsprintf_s' if func == 'x:vsprintf_s' else 'vsnprintf_s', slack, rmax, c.blocks[0][1], fmt, args))
+    cf = '%s/cases_c05p.txt' % scr.dir
+    with open(cf, 'w') as f:
+        for c in cs: f.write(c.line() + '\n')
+    oi = vlib.run_impl(impl, cf, cs)
+    p = subprocess.run([vlib.VERIF + '/build/model/fmt_engine'], input='\n'.join(ml) + '\n', capture_output=True, text=True, timeout=600)
+    om = {}
+    for l in p.stdout.split('\n'):
+        f = l.split()
+        if f: om[f[0]] = dict(x.split('=', 1) for x in f[1:])
+    for c in cs:
+        a = oi.get(c.id); m = c.meta; b = om.get(c.id)
+        rep.evals += 1; rep.count('%s/printf-report' % m['func'])
+        if a is None or a.fault != '-': continue
+        rc = int(a.ret); hs = [int(cc) for kk, cc in a.handlers]
+        rep.nontrivial.add((m['func'], 'printf-report', rc < 0, len(hs)))
+        fails = []
+        if rc >= 0 and hs: fails.append(('handler-on-success', 'returned %d but handler invocations were %s' % (rc, hs)))
+        if rc < 0 and hs != [22 if rc == -1 else -rc]: fails.append(('handler-mismatch', 'returned %d but handler invocations were %s' % (rc, hs)))
+        for kind, t in fails:
+            kid = known.classify(rep, c, a, kind, 'O1', consts)
+            if kid: rep.known_hits[kid] = rep.known_hits.get(kid, 0) + 1
+            else: rep.violation('%s("%s", dmax %d): %s' % (m['func'], m['fmt'], m['dmax'], t), {'key': (m['func'], kind, 'printf'), 'property': 'C05', 'function': m['func'], 'failure': kind, 'case': c.to_json(), 'case_line': c.line(), 'impl_outcome': a.raw, 'what': t})
+        if b is not None and b.get('known') == '1':
+            mine = (a.ret, ','.join(str(h) for h in hs) or '-'); theirs = (b['ret'], b['h'])
+            if mine != theirs: rep.mismatches.append((c, a, vlib.Outcome('%s ret=%s model=%s' % (c.id, b['ret'], ';'.join('%s:%s' % kv for kv in sorted(b.items())))), 'O1'))
+
+def getenv_batch(rep, scr, impl, md, consts, pid, var, tier, seed):
+    """getenv_s: value lengths around dmax, unset variable, null arguments; model (libc getenv as an oracle) and reference"""
+    import random
+    rng = random.Random(seed + 17); cs = []; k = [0]
+    slack = bool(consts['null_slack'])
+    name = b'VERIF_ENV\0'
+    def add(value, dmax, dest_null=False, len_null=False, name_null=False, destbos=UNK, cls='value'):
+        k[0] += 1
+        blocks = [('R', (value + b'\0') if value is not None else b'\0'), ('R', b'\xee' * 8), ('R', fam_copy.garbage(rng, max(dmax, 1) if dmax < 5000 else 8)), ('R', name)]
+        args = [None if len_null else (1, 0), None if dest_null else (2, 0), dmax, None if name_null else (3, 0), destbos, (0, 0) if value is not None else None]
+        cs.append(vlib.Case('g%s%d' % (var, k[0]), 'getenv_s', blocks, args, dict(cls=cls, value=value, dmax=dmax, dest_null=dest_null, len_null=len_null, name_null=name_null, func='getenv_s')))
+    for dmax in (1, 2, 3, 8, 33, 64):
+        for L in sorted(set(x for x in (0, 1, dmax - 2, dmax - 1, dmax, dmax + 1, dmax + 7) if x >= 0)):
+            add(bytes(rng.choice(b'abcXYZ019/:') for _ in range(L)), dmax)
+        add(None, dmax, cls='unset')
+        add(b'abc', dmax, len_null=True, cls='len-null'); add(b'abc', dmax, name_null=True, cls='name-null'); add(b'abc', dmax, dest_null=True, cls='dest-null-dmax')
+    add(b'abc', 0, dest_null=True, cls='query'); add(b'', 0, dest_null=True, cls='query'); add(None, 0, dest_null=True, cls='query-unset')
+    add(b'abc', 0, cls='dmax-zero'); add(b'abc', consts['rmax_str'] + 1, cls='dmax-max')
+    cf = '%s/cases_getenv_%s.txt' % (scr.dir, var)
+    with open(cf, 'w') as f:
+        for c in cs: f.write(c.line() + '\n')
+    oi = vlib.run_impl(impl, cf, cs); om = vlib.run_model(md, vlib.model_args(consts), cf)
+    for c in cs:
+        a = oi.get(c.id); b = om.get(c.id); m = c.meta
+        rep.evals += 1; rep.count('getenv_s/%s/%s' % (m['cls'], var))
+        if a is None: continue
+        fails = []
+        if a.fault != '-': fails.append(('fault', 'faulted at %s' % a.fault))
+        else:
+            rc = int(a.ret); dmax = m['dmax']; dest = a.blocks[2]; lenv = int.from_bytes(a.blocks[1], 'little'); hs = [(kk, int(cc)) for kk, cc in a.handlers]
+            rep.nontrivial.add(('getenv_s', m['cls'], rc, var))
+            usable = not m['dest_null'] and 0 < dmax <= consts['rmax_str']
+            if pid == 'C01':
+                for bi in (0, 3):
+                    if a.blocks[bi] != c.blocks[bi][1]: fails.append(('write-outside', 'block %d (not the destination) was modified' % bi))
+                if m['len_null'] and a.blocks[1] != c.blocks[1][1]: fails.append(('write-outside', 'the length cell was written although len is NULL'))
+            if pid == 'C03' and usable and 0 not in dest[:dmax]: fails.append(('unterminated', 'dest has no NUL within its first %d bytes after return %d' % (dmax, rc)))
+            if pid == 'C04' and usable and rc != 0:
+                if dest[0] != 0: fails.append(('first-nonzero', 'failed call (%d) left dest[0] = %#x' % (rc, dest[0])))
+                elif slack and any(dest[:dmax]): fails.append(('not-all-zero', 'failed call (%d) left dest not all zero' % rc))
+            if pid == 'C05':
+                if rc == 0 and hs: fails.append(('handler-on-success', 'returned EOK but handler invocations were %s' % hs))
+                if rc not in (0, -1) and hs != [('S', rc)]: fails.append(('handler-mismatch', 'returned %d but handler invocations were %s' % (rc, hs)))
+                v = m['value']
+                if v is not None and not m['name_null'] and usable and len(v) >= dmax and rc == 0: fails.append(('violation-not-reported', 'the value (%d characters) does not fit dmax %d but the call returned EOK' % (len(v), dmax)))
+            if pid == 'C06' and rc == 0:
+                v = m['value']
+                if v is None: fails.append(('eok-but-invalid', 'EOK although the variable is not set'))
+                else:
+                    if usable and bytes(dest[:len(v) + 1]) != v + b'\0': fails.append(('wrong-result', 'EOK but dest = %r, the value is %r' % (bytes(dest[:len(v) + 2]), v)))
+                    if not m['len_null'] and lenv != len(v): fails.append(('wrong-length', 'EOK but *len = %d, the value has %d characters' % (lenv, len(v))))
+        for kind, t in fails:
+            rep.violation('getenv_s(value=%r, dmax=%s, %s; %s): %s' % (m['value'], m['dmax'], m['cls'], var, t), {'key': ('getenv_s', kind), 'property': pid, 'function': 'getenv_s', 'failure': kind, 'case': c.to_json(), 'case_line': c.line(), 'impl_outcome': a.raw, 'what': t})
+        if b is not None and a.fault == '-' and (a.ret, a.blocks, a.handlers) != (b.ret, b.blocks, b.handlers): rep.mismatches.append((c, a, b, var))
 
 C02_QUERY = ['wcsnlen_s', 'strcmp_s', 'strcasecmp_s', 'strfirstdiff_s', 'strfirstsame_s', 'strlastdiff_s', 'strlastsame_s', 'strprefix_s', 'strspn_s', 'strcspn_s', 'strpbrk_s', 'strstr_s',
              'strcasestr_s', 'strchr_s', 'strrchr_s', 'strfirstchar_s', 'strlastchar_s', 'memchr_s', 'memrchr_s', 'memcmp_s', 'strisalphanumeric_s', 'strisascii_s', 'strisdigit_s', 'strishex_s',
